@@ -163,6 +163,21 @@ func trunc(s string) string {
 func TestC19(t *testing.T) {
 	rep := lib.NewReport("C19", "model_checking")
 	defer rep.Finish(t)
+	// the log's reader goroutines panic on their own on some defects: run the exploration in a worker process
+	lib.Isolated(t, rep, "TestC19", 20*time.Minute, func(journal func(string)) { c19body(t, rep, journal) }, func(last, output string) {
+		phase := "sequential"
+		if strings.Contains(last, "concurrent") {
+			phase = "concurrent"
+		}
+		reason := output
+		if i := strings.Index(output, "panic:"); i >= 0 {
+			reason = output[i:min2(i+400, len(output))]
+		}
+		rep.Violate("C19|process-dies|"+phase, fmt.Sprintf("worker %s: %s", last, reason), last)
+	})
+}
+
+func c19body(t *testing.T, rep *lib.Report, journal func(string)) {
 	rep.Rule = "sequential: all histories of <=3 Add over payloads {empty, a, two lines, YAML-looking, 1504 bytes} x a 1s-tick choice between steps, real wal.WAL over the reference store inside a synctest bubble; concurrent: 2 (thorough 3) appenders with Touch/GetAttr/Put gated, all interleavings + tick placements; after each history ListEntries from every issued token and synthetic tokens (±1s, ±30min) x max in {1,2,3,1000}; oracle: unique KSUID tokens ordered across seconds, listing = appended entries with token >= back-dated start, token order, payload byte-identical; distinct = distinct histories/outcomes"
 	names := []string{"empty", "a", "twolines", "yamlish", "big"}
 	// ---- sequential histories
@@ -183,6 +198,7 @@ func TestC19(t *testing.T) {
 	for _, h := range hist {
 		for ticks := 0; ticks < 1<<uint(len(h)-1); ticks++ {
 			h, ticks := h, ticks
+			journal(fmt.Sprintf("sequential history %v ticks=%b", h, ticks))
 			lib.Bubble(t, func() {
 				mutable, ws := lib.NewMemStore("mutable"), lib.NewMemStore("wal")
 				w := wal.New(mutable, ws, wal.Logger(nopLogger))
@@ -249,6 +265,7 @@ func TestC19(t *testing.T) {
 			}
 			x.SetOutcome(o + ";secs=" + strings.Join(toks, ","))
 		}
+		journal("concurrent " + sc.Name)
 		e := &lib.Explorer{Sc: sc, PreemptBound: -1, FaultBound: 1, MaxExecs: 200000}
 		if lib.Thorough() && n == 2 {
 			e.FaultBound = 2
